@@ -46,6 +46,10 @@ type Stats struct {
 	Desc                               string
 	Probes                             map[string]int
 	Calls                              int
+	// MapDep names the library routine whose Go-map iteration legitimately
+	// influences this case's execution order or bytes ("" = none): such a case is
+	// compared only on its order-free parts by the determinism self-test.
+	MapDep string
 }
 
 func (s *Stats) probe(k string) {
@@ -264,6 +268,9 @@ func runMC(r *runner, work *choice.Source, search bool) (fs []Finding) {
 	if !search && kind == 4 {
 		name = "filter-exact"
 	}
+	if search {
+		r.st.MapDep = "mcSearch walks Mesh.VertexSlice(), whose order is the iteration order of the vertex index (a Go map)"
+	}
 	r.st.Desc = fmt.Sprintf("mc search=%v iters=%d delta=%.4f prims=%d aligned=%v variant=%s %s", search, iters, shape.Delta, len(shape.Prims), shape.Aligned, name, v)
 	if name == "c2f" {
 		// a coarse spacing is admissible only if the coarse mesh "sees every
@@ -371,6 +378,9 @@ func runDC(r *runner, work *choice.Source, repair bool) (fs []Finding) {
 	if bufRows < nz {
 		shifts = (nz - bufRows + bufRows - 3) / (bufRows - 2)
 	}
+	if repair {
+		r.st.MapDep = "DualContouring Repair walks Go maps (listed known finding dc|repair-repeat: the repaired faces themselves differ between runs)"
+	}
 	r.st.Desc = fmt.Sprintf("dc repair=%v clip=%v nojitter=%v interior=%v mode=%d delta=%.4f lattice=%dx%dx%d buffer=%d (rows %d, ~%d shifts) maxgos=%d %s",
 		repair, clip, noJitter, interior, mode, shape.Delta, nx, ny, nz, buf, bufRows, shifts, maxGos, v)
 	if shifts >= 2 {
@@ -452,6 +462,9 @@ func runMS(r *runner, work *choice.Source) (fs []Finding) {
 	cnt := &simsolid.Counter{}
 	solid := &simsolid.Solid2{S: shape, Salt: salt, YieldEvery: v.YieldEvery, Cnt: cnt}
 	name := []string{"plain", "filter-true", "filter-exact", "filter-exact+extra", "c2f"}[kind]
+	if iters > 0 {
+		r.st.MapDep = "msSearch walks Mesh.VertexSlice(), whose order is the iteration order of the vertex index (a Go map)"
+	}
 	r.st.Desc = fmt.Sprintf("ms iters=%d delta=%.4f prims=%d aligned=%v variant=%s %s", iters, shape.Delta, len(shape.Prims), shape.Aligned, name, v)
 	if name == "c2f" {
 		big := shape.Delta * float64(bigK)
